@@ -4,7 +4,7 @@ import json, glob, os
 rows = []
 for f in sorted(glob.glob('/verif/seeded/*/meta.json')):
     m = json.load(open(f))
-    missed = m['detection_detail'].startswith('MISSED') or 'would have MISSED' in m['detection_detail']
+    missed = m['detection_detail'].startswith(('MISSED', 'NOT caught')) or 'would have MISSED' in m['detection_detail']
     rows.append((m['seed'], m['breaks_property'], m['needs_to_manifest'], ', '.join(m['detected_by']) or '-', 'missed at first, check strengthened' if missed else 'caught as it stood', m['detection_detail']))
 out = ["# Seeded changes (independent sub-agents; each confirmed in a scratch worktree: demo passes on HEAD, fails with the patch, repository baseline unchanged)", "",
        "| seed | breaks | needs, in order to manifest | detected by (quick tier) | first outcome | detail |", "|---|---|---|---|---|---|"]
